@@ -323,6 +323,7 @@ pub struct RegexEngine {
 }
 
 thread_local! {
+    static NUM_BATCHES: std::cell::RefCell<HashMap<(&'static str, &'static str, u64), usize>> = std::cell::RefCell::new(HashMap::new());
     static FAMILIES: std::cell::RefCell<Option<(Kind, Tier, Vec<Box<dyn Family>>)>> = std::cell::RefCell::new(None);
 }
 
@@ -366,8 +367,15 @@ impl Engine for RegexEngine {
     }
 
     fn num_batches(&self, ctx: &Ctx) -> usize {
+        // building the families is not free: remember the answer
+        let key = (self.kind.id(), ctx.tier.name(), ctx.seed);
+        if let Some(n) = NUM_BATCHES.with(|c| c.borrow().get(&key).copied()) {
+            return n;
+        }
         let shift = shift_of(ctx.seed);
-        1 + families(self.kind, ctx.tier).iter().map(|f| num_chunks(f.len(), shift)).sum::<usize>()
+        let n = 1 + families(self.kind, ctx.tier).iter().map(|f| num_chunks(f.len(), shift)).sum::<usize>();
+        NUM_BATCHES.with(|c| c.borrow_mut().insert(key, n));
+        n
     }
 
     fn run_batch(&self, ctx: &Ctx, batch: usize, rep: &mut Report) {
